@@ -10,7 +10,8 @@ RULE = ("random histories (tables, rows, streams, summary values) for all three 
         "bytes must be identical.  Also sessions on packages that were just created, on packages reopened twice, and on files "
         "written by an independent encoder (unused pool entries that still hold text, duplicates, over-counts, three-byte "
         "references, no _Validation, other property-set layouts).  "
-        "non-trivial = the package holds at least one user table; distinct = distinct command lists")
+        "The same sessions are run through the crate's path-based entry points msi::open_rw and msi::open on a file "
+        "under build/: the file's bytes must be identical afterwards.  non-trivial = the package holds at least one user table; distinct = distinct command lists")
 ASSUMPTIONS = ["sector-level behaviour of cfb on open is below the container model; it is observed on the real medium (write-call "
                "counter + byte comparison), not proved"]
 MODES = ["flush", "into_inner", "drop"]
@@ -43,6 +44,10 @@ def gen_cases(rng, tier, info):
         for m in MODES:
             h.cmds.append("(readonly_session %s)" % m)
             sessions += 1
+        # the same through the crate's path-based entry points (msi::open_rw / msi::open on a file under build/)
+        for how, m in (("rw", MODES[j % 3]), ("rw", MODES[(j + 1) % 3]), ("ro", "drop"), ("ro", "into_inner")):
+            h.cmds.append("(x_readonly_path %s %s)" % (how, m))
+            sessions += 1
         if j % 3 == 1:
             h.cmds.append("(has_sig)")
         h.cmds.append("(snapshot)")
@@ -63,6 +68,8 @@ def gen_cases(rng, tier, info):
         for m in MODES + MODES:
             cmds.append("(readonly_session %s)" % m)
             sessions += 1
+        cmds += ["(x_readonly_path rw %s)" % MODES[j % 3], "(x_readonly_path ro drop)"]
+        sessions += 2
         cases.append(Case("foreign-%d" % j, cmds, ("foreign",)))
     info.update({"histories": n, "read_only_sessions": sessions})
     return cases
@@ -76,6 +83,13 @@ def oracle(ctx):
     bad = []
     for c, outs in zip(ctx.cases, ctx.impl_out):
         for i, (cmd, o) in enumerate(zip(c.cmds, outs)):
+            if cmd.startswith("(x_readonly_path"):
+                if o in ("panic", "abort", "timeout", "(panic)"):
+                    bad.append({"kind": "panic", "what": "%s in a read-only session opened by path" % o, "cmds": c.cmds[:i + 1], "impl": o})
+                elif o != "(ok 1)":
+                    bad.append({"kind": "modified", "what": "a read-only session through the path-based entry point (%s) left the file %s; "
+                                "expected (ok 1): bytes identical" % (cmd, o), "cmds": c.cmds[:i + 1], "impl": o})
+                continue
             if not cmd.startswith("(readonly_session"):
                 continue
             if o in ("panic", "abort", "timeout"):
